@@ -148,3 +148,30 @@ def conjoined_case_tests(f, bb):
             out.append((seen[k], m.group(2)))
         seen[k] = m.group(2)
     return out
+
+
+def dead_flags(f):
+    """named bool locals of f that some branch tests but that are only ever assigned the literal
+    false: (name, assigned values). The branch they guard is dead - the distinction the flag was
+    introduced for is never made"""
+    import re
+    from lib.mir import op_const
+    tested = set()
+    for b in f.rpo():
+        for c in f.conds_at(b):
+            m = re.match(r"^var:(\w+)$", str(c[1])) if c[0] == "eq" else None
+            if m:
+                tested.add(m.group(1))
+    out = []
+    for name in sorted(tested):
+        ls = f.locals_named(name)
+        if not ls or f.local_ty(ls[0]) != "bool":
+            continue
+        vals = []
+        for b, i, st in f.assigns():
+            if st["place"]["local"] in ls and not st["place"]["proj"]:
+                cv = op_const(st["rv"]["op"]) if st["rv"]["k"] == "use" else None
+                vals.append(cv.get("bool") if cv else "computed")
+        if vals and all(v is False for v in vals):
+            out.append((name, vals))
+    return out
